@@ -606,7 +606,7 @@ func runC06Stall(c c06Stall, o gwOpts, tgt gwc.Target) *Violation {
 
 func genC06Stall(t *rapid.T, long bool) c06Stall {
 	c := c06Stall{Opts: genC01Opts(t), Kind: genKind(t), Who: rapid.SampledFrom([]string{"client", "client", "host"}).Draw(t, "who"), Seed: rapid.Byte().Draw(t, "seed")}
-	c.StallMs = rapid.SampledFrom([]int{50, 300, 1500}).Draw(t, "stall")
+	c.StallMs = rapid.SampledFrom([]int{50, 300, 300, 1500, 1500, 6500}).Draw(t, "stall")
 	if c.Who == "host" {
 		c.StallMs = rapid.SampledFrom([]int{300, 2500, 6500}).Draw(t, "hostStall")
 		if long {
